@@ -373,6 +373,7 @@ LEVEL_TEXT = ("Exploration by runtime observation: for generated documents and e
               "records, update, add_bundle of a document, unified of documents and bundles, flattened, JSON/XML/RDF deserialisation) a mutator "
               "(add attribute / record / namespace / default namespace / bundle) is applied to the result or to the source and the other side's "
               "strict content and namespace view are compared before/after; a structural walk intersecting the identities of the mutable "
-              "containers of both object graphs directs the mutation through any shared object.")
+              "containers of both object graphs directs the mutation through any shared object."
+              " Derivations include add_record into the record's own document, update(self), second-order unified() and deepcopy; mutators include supplying a missing formal attribute and writing through every container when the structural walk sees sharing.")
 LEVEL_NOTE = "Trusted: snapshots; immutable-by-convention value objects are deliberately not treated as shared state. Bounded documents."
 DESIGN_REF = "DESIGN.md section 5 (ALIAS) and section 6, C12"
